@@ -127,6 +127,7 @@ package storage
 //@   ensures [genesis] err == nil && common.GenesisShape(&ver.SignedTransaction.Transaction) ==> TotalOf(*txn, ver.Asset) == old(TotalOf(*txn, ver.Asset)) + common.SumOut(ver.Outputs, len(ver.Outputs))
 //@   ensures [submit] err == nil && common.SubmitShape(&ver.SignedTransaction.Transaction) ==> TotalOf(*txn, ver.Asset) == old(TotalOf(*txn, ver.Asset)) - common.SumSubmit(ver.Outputs, len(ver.Outputs))
 //@   ensures [other] common.OtherShape(&ver.SignedTransaction.Transaction) ==> *txn == old(*txn)
+//@   ensures [delta] err == nil && common.DeltaKnown(&ver.SignedTransaction.Transaction) ==> TotalOf(*txn, ver.Asset) == old(TotalOf(*txn, ver.Asset)) + common.DeltaOf(&ver.SignedTransaction.Transaction) -- the five clauses above in one formula
 //@   ensures [nonneg] err == nil ==> 0 <= TotalOf(*txn, ver.Asset)
 //@   ensures [capacity] err == nil && (common.DepositShape(&ver.SignedTransaction.Transaction) || common.MintShape(&ver.SignedTransaction.Transaction) || common.GenesisShape(&ver.SignedTransaction.Transaction) || common.SubmitShape(&ver.SignedTransaction.Transaction)) ==>
 //@       TotalOf(*txn, ver.Asset) <= common.CapacityOf(ver.Asset)
@@ -189,13 +190,10 @@ package storage
 //@   ensures [frame] let h == ver.hash in forall k mathint :: {badger.kvget(*txn, k)} badger.kvget(*txn, k) != old(badger.kvget(*txn, k)) ==>
 //@       k == FK(h) || k == AIK(ver.Asset) || k == ATK(ver.Asset) || keykind(k) == 2 || (keykind(k) == 1 && keyhid(k) == kvval(h)) || keykind(k) == 14 || keykind(k) == 15 || keykind(k) == 16
 //@   -- C17: the effect of ONE finalization on the recorded supply and on the set of outputs; nothing when the transaction was finalized before ([idempotent])
-//@   ensures [total-deposit] let h == ver.hash in !old(Finalized(*txn, h)) && err == nil && common.DepositShape(&ver.SignedTransaction.Transaction) ==> TotalOf(*txn, ver.Asset) == old(TotalOf(*txn, ver.Asset)) + val(ver.Inputs[0].Deposit.Amount)
-//@   ensures [total-mint] let h == ver.hash in !old(Finalized(*txn, h)) && err == nil && common.MintShape(&ver.SignedTransaction.Transaction) ==> TotalOf(*txn, ver.Asset) == old(TotalOf(*txn, ver.Asset)) + val(ver.Inputs[0].Mint.Amount)
-//@   ensures [total-genesis] let h == ver.hash in !old(Finalized(*txn, h)) && err == nil && common.GenesisShape(&ver.SignedTransaction.Transaction) ==> TotalOf(*txn, ver.Asset) == old(TotalOf(*txn, ver.Asset)) + common.SumOut(ver.Outputs, len(ver.Outputs))
-//@   ensures [total-submit] let h == ver.hash in !old(Finalized(*txn, h)) && err == nil && common.SubmitShape(&ver.SignedTransaction.Transaction) ==> TotalOf(*txn, ver.Asset) == old(TotalOf(*txn, ver.Asset)) - common.SumSubmit(ver.Outputs, len(ver.Outputs))
-//@   ensures [total-other] common.OtherShape(&ver.SignedTransaction.Transaction) ==> badger.kvget(*txn, ATK(ver.Asset)) == old(badger.kvget(*txn, ATK(ver.Asset)))
+//@   ensures [total] let h == ver.hash in !old(Finalized(*txn, h)) && err == nil && common.DeltaKnown(&ver.SignedTransaction.Transaction) ==>
+//@       TotalOf(*txn, ver.Asset) == old(TotalOf(*txn, ver.Asset)) + common.DeltaOf(&ver.SignedTransaction.Transaction) -- Delta by class: +deposit | +mint | +genesis outputs | -submission outputs | 0 (common.DeltaOf)
 //@   ensures [total-bounds] let h == ver.hash in !old(Finalized(*txn, h)) && err == nil ==> 0 <= TotalOf(*txn, ver.Asset) &&
-//@       (common.DepositShape(&ver.SignedTransaction.Transaction) || common.MintShape(&ver.SignedTransaction.Transaction) || common.GenesisShape(&ver.SignedTransaction.Transaction) || common.SubmitShape(&ver.SignedTransaction.Transaction) ==> TotalOf(*txn, ver.Asset) <= common.CapacityOf(ver.Asset))
+//@       (common.WritesTotal(&ver.SignedTransaction.Transaction) ==> TotalOf(*txn, ver.Asset) <= common.CapacityOf(ver.Asset))
 //@   ensures [outputs] let h == ver.hash in !old(Finalized(*txn, h)) && err == nil ==> forall i int :: 0 <= i && i < len(ver.Outputs) && common.Materialised(ver.Outputs[i].Type) ==> HasUtxo(*txn, h, i)
 //@   loop 0 invariant [hash] ver.hash.HasValue() && (old(ver.hash.HasValue()) ==> ver.hash == old(ver.hash))
 //@   loop 0 invariant [written] forall j int :: {rangeexpr[j]} 0 <= j && j <= rangeindex ==> HasUtxo(*txn, ver.hash, rangeexpr[j].Index)
